@@ -21,14 +21,14 @@ def _get_type_length(self: "PackedEncoder", fcp: "ref:FcpV2", type: "ref:Type") 
 
 @contract("fcp.encoding:PackedEncoder._generate_signal")
 def _generate_signal(self: "PackedEncoder", field: "ref:StructField", extension: "ref:Impl", prefix: "str" = ""):
-    requires(tiled(self.encoding, self.bitstart, self.gnames) and leafy(self.encoding, self.ctx.unroll_arrays))
+    requires(tiled(self.encoding, self.bitstart, self.gnames) and leafy(self.fcp, self.encoding, self.ctx.unroll_arrays))
     requires(wf_type(self.fcp, field.type))
     modifies(self.encoding, self.bitstart, self.gnames)
     may_raise(ValueError)
     no_raise_if(all_fixed(self.fcp, field.type, self.ctx.unroll_arrays))
     must_raise_if(not all_fixed(self.fcp, field.type, self.ctx.unroll_arrays))
     ghost_set(self.gnames, self.gnames + ([prefix + field.name] if is_leaf(field.type, self.ctx.unroll_arrays) else []))
-    ensures(tiled(self.encoding, self.bitstart, self.gnames) and leafy(self.encoding, self.ctx.unroll_arrays))
+    ensures(tiled(self.encoding, self.bitstart, self.gnames) and leafy(self.fcp, self.encoding, self.ctx.unroll_arrays))
     ensures(self.gnames == old(self.gnames) + field_names(self.fcp, field.type, field.name, prefix, self.ctx.unroll_arrays))
     ensures(len(self.encoding) >= len(old(self.encoding)) and seq_extract(self.encoding, 0, len(old(self.encoding))) == old(self.encoding))
     # the leaf case: one piece, with the field's wire width, at the old cursor, carrying the options of the block named like the field
@@ -39,18 +39,18 @@ def _generate_signal(self: "PackedEncoder", field: "ref:StructField", extension:
 
 @contract("fcp.encoding:PackedEncoder._generate_struct")
 def _generate_struct(self: "PackedEncoder", struct: "ref:Struct", extension: "ref:Impl", prefix: "str" = ""):
-    requires(tiled(self.encoding, self.bitstart, self.gnames) and leafy(self.encoding, self.ctx.unroll_arrays))
+    requires(tiled(self.encoding, self.bitstart, self.gnames) and leafy(self.fcp, self.encoding, self.ctx.unroll_arrays))
     requires(forall(0, len(sorted_fields(struct)), lambda k: wf_type(self.fcp, sorted_fields(struct)[k].type)))
     modifies(self.encoding, self.bitstart, self.gnames)
     may_raise(ValueError)
     no_raise_if(fields_fixed(self.fcp, sorted_fields(struct), self.ctx.unroll_arrays, len(sorted_fields(struct))))
     must_raise_if(not fields_fixed(self.fcp, sorted_fields(struct), self.ctx.unroll_arrays, len(sorted_fields(struct))))
-    ensures(tiled(self.encoding, self.bitstart, self.gnames) and leafy(self.encoding, self.ctx.unroll_arrays))
+    ensures(tiled(self.encoding, self.bitstart, self.gnames) and leafy(self.fcp, self.encoding, self.ctx.unroll_arrays))
     ensures(self.gnames == old(self.gnames) + struct_names(self.fcp, sorted_fields(struct), prefix, self.ctx.unroll_arrays,
                                                              len(sorted_fields(struct))))
     ensures(len(self.encoding) >= len(old(self.encoding)) and seq_extract(self.encoding, 0, len(old(self.encoding))) == old(self.encoding))
     loop(0, over="sorted(struct.fields, key=lambda field: field.field_id)",
-         invariant=lambda it: tiled(self.encoding, self.bitstart, self.gnames) and leafy(self.encoding, self.ctx.unroll_arrays)
+         invariant=lambda it: tiled(self.encoding, self.bitstart, self.gnames) and leafy(self.fcp, self.encoding, self.ctx.unroll_arrays)
          and self.gnames == old(self.gnames) + struct_names(self.fcp, sorted_fields(struct), prefix, self.ctx.unroll_arrays, it)
          and len(self.encoding) >= len(old(self.encoding)) and seq_extract(self.encoding, 0, len(old(self.encoding))) == old(self.encoding)
          and fields_fixed(self.fcp, sorted_fields(struct), self.ctx.unroll_arrays, it))
@@ -58,17 +58,17 @@ def _generate_struct(self: "PackedEncoder", struct: "ref:Struct", extension: "re
 
 @contract("fcp.encoding:PackedEncoder._generate_array_type")
 def _generate_array_type(self: "PackedEncoder", type: "ref:ArrayType", field: "ref:StructField", extension: "ref:Impl", prefix: "str" = ""):
-    requires(tiled(self.encoding, self.bitstart, self.gnames) and leafy(self.encoding, self.ctx.unroll_arrays))
+    requires(tiled(self.encoding, self.bitstart, self.gnames) and leafy(self.fcp, self.encoding, self.ctx.unroll_arrays))
     requires(wf_type(self.fcp, type) and self.ctx.unroll_arrays)
     modifies(self.encoding, self.bitstart, self.gnames)
     may_raise(ValueError)
     no_raise_if(type.size <= 0 or all_fixed(self.fcp, type.underlying_type, True))
     must_raise_if(type.size > 0 and not all_fixed(self.fcp, type.underlying_type, True))
-    ensures(tiled(self.encoding, self.bitstart, self.gnames) and leafy(self.encoding, self.ctx.unroll_arrays))
+    ensures(tiled(self.encoding, self.bitstart, self.gnames) and leafy(self.fcp, self.encoding, self.ctx.unroll_arrays))
     ensures(self.gnames == old(self.gnames) + arr_names(self.fcp, type.underlying_type, field.name, prefix, True, type.size))
     ensures(len(self.encoding) >= len(old(self.encoding)) and seq_extract(self.encoding, 0, len(old(self.encoding))) == old(self.encoding))
     loop(0, over="range(type.size)",
-         invariant=lambda it: tiled(self.encoding, self.bitstart, self.gnames) and leafy(self.encoding, self.ctx.unroll_arrays)
+         invariant=lambda it: tiled(self.encoding, self.bitstart, self.gnames) and leafy(self.fcp, self.encoding, self.ctx.unroll_arrays)
          and self.gnames == old(self.gnames) + arr_names(self.fcp, type.underlying_type, field.name, prefix, True, it)
          and len(self.encoding) >= len(old(self.encoding)) and seq_extract(self.encoding, 0, len(old(self.encoding))) == old(self.encoding)
          and (it <= 0 or all_fixed(self.fcp, type.underlying_type, True)))
@@ -76,13 +76,13 @@ def _generate_array_type(self: "PackedEncoder", type: "ref:ArrayType", field: "r
 
 @contract("fcp.encoding:PackedEncoder._generate_compound_type")
 def _generate_compound_type(self: "PackedEncoder", type: "ref:StructType", extension: "ref:Impl", prefix: "str" = ""):
-    requires(tiled(self.encoding, self.bitstart, self.gnames) and leafy(self.encoding, self.ctx.unroll_arrays))
+    requires(tiled(self.encoding, self.bitstart, self.gnames) and leafy(self.fcp, self.encoding, self.ctx.unroll_arrays))
     requires(wf_struct(self.fcp, type.name))
     modifies(self.encoding, self.bitstart, self.gnames)
     may_raise(ValueError)
     no_raise_if(all_fixed(self.fcp, type, self.ctx.unroll_arrays))
     must_raise_if(not all_fixed(self.fcp, type, self.ctx.unroll_arrays))
-    ensures(tiled(self.encoding, self.bitstart, self.gnames) and leafy(self.encoding, self.ctx.unroll_arrays))
+    ensures(tiled(self.encoding, self.bitstart, self.gnames) and leafy(self.fcp, self.encoding, self.ctx.unroll_arrays))
     ensures(self.gnames == old(self.gnames) + struct_names(self.fcp, sorted_fields(struct_of(self.fcp, type.name)), prefix,
                                                              self.ctx.unroll_arrays, len(sorted_fields(struct_of(self.fcp, type.name)))))
     ensures(len(self.encoding) >= len(old(self.encoding)) and seq_extract(self.encoding, 0, len(old(self.encoding))) == old(self.encoding))
@@ -90,13 +90,13 @@ def _generate_compound_type(self: "PackedEncoder", type: "ref:StructType", exten
 
 @contract("fcp.encoding:PackedEncoder._generate")
 def _generate(self: "PackedEncoder", type: "ref:StructType", extension: "ref:Impl", prefix: "str" = ""):
-    requires(tiled(self.encoding, self.bitstart, self.gnames) and leafy(self.encoding, self.ctx.unroll_arrays))
+    requires(tiled(self.encoding, self.bitstart, self.gnames) and leafy(self.fcp, self.encoding, self.ctx.unroll_arrays))
     requires(wf_struct(self.fcp, type.name))
     modifies(self.encoding, self.bitstart, self.gnames)
     may_raise(ValueError)
     no_raise_if(all_fixed(self.fcp, type, self.ctx.unroll_arrays))
     must_raise_if(not all_fixed(self.fcp, type, self.ctx.unroll_arrays))
-    ensures(tiled(self.encoding, self.bitstart, self.gnames) and leafy(self.encoding, self.ctx.unroll_arrays))
+    ensures(tiled(self.encoding, self.bitstart, self.gnames) and leafy(self.fcp, self.encoding, self.ctx.unroll_arrays))
     ensures(self.gnames == old(self.gnames) + struct_names(self.fcp, sorted_fields(struct_of(self.fcp, type.name)), prefix,
                                                              self.ctx.unroll_arrays, len(sorted_fields(struct_of(self.fcp, type.name)))))
     ensures(len(self.encoding) >= len(old(self.encoding)) and seq_extract(self.encoding, 0, len(old(self.encoding))) == old(self.encoding))
@@ -111,7 +111,7 @@ def generate(self: "PackedEncoder", impl: "ref:Impl") -> "seq[ref:Value]":
     no_raise_if(all_fixed_struct(self.fcp, impl.type, self.ctx.unroll_arrays))
     must_raise_if(not all_fixed_struct(self.fcp, impl.type, self.ctx.unroll_arrays))
     ghost_before("PackedEncoder._generate", self.gnames, seq_empty("str"))
-    ensures(result == self.encoding and tiled(result, self.bitstart, self.gnames) and leafy(result, self.ctx.unroll_arrays))
+    ensures(result == self.encoding and tiled(result, self.bitstart, self.gnames) and leafy(self.fcp, result, self.ctx.unroll_arrays))
     ensures(self.gnames == struct_names(self.fcp, sorted_fields(struct_of(self.fcp, impl.type)), "", self.ctx.unroll_arrays,
                                         len(sorted_fields(struct_of(self.fcp, impl.type)))))
 
